@@ -9,7 +9,13 @@ CHECKER = 'coqc props/C06.v (proofs/RequestGood.v) + correspondence (returned fr
 
 def oracle(sc, rq, r):
     """The scenario's plan says which attempt is answered correctly and in time."""
-    good = [p for p in sc['plan'] if p[0] == 'good']
+    plan = sc['plans'][sc.get('_idx', 0)] if 'plans' in sc else sc['plan']
+    # earlier requests of the sequence must have used exactly the transmissions scripted for them, otherwise the
+    # receiver's script is out of step with this request and the plan says nothing about it
+    for j in range(sc.get('_idx', 0)):
+        if len(sc['_results'][j]['tx']) != len(sc['plans'][j]):
+            return None
+    good = [p for p in plan if p[0] == 'good']
     if not good or good[0][2]:
         return None            # no good attempt planned, or it arrives too late: nothing to demand
     k = good[0][1]
@@ -25,12 +31,12 @@ def check(tier, seed):
     res = C.Result('C06', tier, seed)
     res.rule = ('scenarios where the k-th transmission (k in 1..retries+1, retries 0..10) is answered correctly and in time (response, +ACK for CFG '
                 'polls; ACK/NAK for set; accepting MGA-ACK) after k-1 faulty attempts (silence, garbage, corrupted/truncated frames, failed sends, '
-                'undecodable frames ...), with inert traffic (NMEA, other UBX, filler) interleaved and chunkings {1 byte, 128, whole, random}; compared: '
+                'undecodable frames ...), alone or after one or two earlier requests on the same server object (whose own class/ids then occur in the inert traffic), every 4th scenario on the real serial backend over a scripted line (bit rate as constructed or changed by set_baudrate), with inert traffic (NMEA, other UBX, filler) interleaved and chunkings {1 byte, 128, whole, random}; compared: '
                 'returned frame and number of sends with the model; oracle: the request returns a frame within k sends; non-trivial = a good answer planned')
     with C.WorkDir('C06') as wd:
         C.audit_sources()
         C.props_obligations(res, 'C06', wd)
-        cases = RC.run_suite(res, 'C06', tier, seed, 400, 15000, force='good', oracle=oracle, late_every=10)
+        cases = RC.run_suite(res, 'C06', tier, seed, 400, 15000, n_req=[1, 1, 1, 2, 3], force='good', oracle=oracle, late_every=10)
         res.compare(cases)
         res.notes['answered'] = sum(1 for c in cases if 'ret=Ubx' in c.impl)
         res.oblige('correspondence request loop: answer and sends (Tie A)', not res.disagreements)
